@@ -264,7 +264,9 @@ class HealthChecker(Entity):
 
         # Schedule next cycle
         next_cycle = Event(
-            time=self.now + Duration.from_seconds(self._interval),
+            # A positive check interval below the 1 ns clock resolution truncates to
+            # a zero Duration; keep the check cycle moving forward in time.
+            time=self.now + max(Duration.from_seconds(self._interval), Duration(1)),
             event_type="_health_check_cycle",
             target=self,
             context={},
